@@ -181,6 +181,15 @@ def w_fixed_image(pid, tier, seed, job):
         ctx.count("image_names", ("cdda-fixed", tuple(titles)), nontrivial=True)
         with R.TempImage(R.cue_text("t.bin", tracks).encode("ascii"), "t.cue", {"t.bin": bytes(2352 * (len(titles) + 1))}) as path:
             export_confined(ctx, path, case)
+    elif job == 3:
+        # titles longer than a file name may be (255 bytes): siblings that agree in their first 251 characters, the same long title twice
+        base = "L" + "o" * 250
+        titles = [base + "ng A", base + "ng B", base + "ng A", "x" * 300, "x" * 300, "short"]
+        tracks = [{"indices": [(1, 0, 0, i)], "title": t} for i, t in enumerate(titles)]
+        case = {"kind": "cdda", "titles": [t[:8] + "...(%d)" % len(t) for t in titles], "d6_shape": False}
+        ctx.count("image_names", ("cdda-long-titles", tuple(len(t) for t in titles)), nontrivial=True)
+        with R.TempImage(R.cue_text("t.bin", tracks).encode("ascii"), "t.cue", {"t.bin": bytes(2352 * (len(titles) + 1))}) as path:
+            export_confined(ctx, path, case)
     elif job == 2:
         # the same stored names as FILE in one partition and as DIRECTORY in the other, in both traversal orders
         # (a directory's export name gets a character appended when it would end in '.' or '-'; a file's does not)
@@ -276,7 +285,7 @@ def run(ctx):
     jobs += [(True, c) for c in chunks(rnd, 300)]
     jobs += [(False, c) for c in chunks(rnd[::4], 300)]
     F.pmap(ctx, w_func, jobs)
-    F.pmap(ctx, w_fixed_image, [0, 1, 2])
+    F.pmap(ctx, w_fixed_image, [0, 1, 2, 3])
     F.pmap(ctx, w_image, [ctx.seed * 4099 + i for i in range(24 if ctx.quick else 300)])
     ctx.exhaustive = True
 
